@@ -96,3 +96,13 @@ func init() {
 		Stages: []Stage{{Name: "query", Pkg: "./mon/c03", Procs: 2, Batches: [2]int{8, 16}, TimeoutS: [2]int{900, 3600}}},
 	}
 }
+
+func init() {
+	properties["C04"] = Property{
+		Level: "exploration",
+		Rule:  "one case = one processed event in a generated world (0-4 rules with 1-3 actions each, `when` patterns with an array variable giving several bindings, conditions giving 0-3 bindings, serial and concurrent policy, failing action variants, both states); three records of the executions (Env.out side channel, tree nodes, values) are compared with the expected multiset; non-trivial = >=2 executions expected; distinct by canonical JSON of (state, rules, facts, event); run under the Go race detector",
+		Floor: [2]int{100, 1000},
+		Assumptions: []string{"expected multiset computed with lib/ref.Match and lib/ref.Eval", "action scripts come from a template that returns its visible environment"},
+		Stages: []Stage{{Name: "actions", Pkg: "./mon/c04", Race: true, Procs: 4, Batches: [2]int{4, 12}, TimeoutS: [2]int{900, 3600}}},
+	}
+}
